@@ -102,6 +102,50 @@ def replay_obj(case, Stream, zero_at=None, fine=False):
     return out, drift
 
 
+BARE_BASE = dict(OBJ_BASE, BareHtrStale=False)
+BARE_INVS = ["C19B_Recip", "C19B_Duty", "C19B_Ordered", "C19B_Shift", "EmitCaseB"]
+
+
+def replay_bare(case, Stream):
+    """A stream constructed without temperatures and assembled one assignment at a time (spec/StreamBare.tla): the reciprocal
+    relation is judged after every call, the relations that speak about a span once both temperatures are there."""
+    hist = case["hist"]
+    q, d, h = hist[0][1]
+    st = Stream("s", heat_flow=C * q, dt_cont=B * d, htc=float(h))
+    have = set()
+
+    def preds(step, op):
+        if {"t_supply", "t_target"} <= have:
+            return [(c, dict(dd, step=step, op=op, bare=True)) for c, dd in _obj_pred(st)]
+        if abs(st.htr * st.htc - 1.0) > 1e-12:
+            return [("C19.resistance_is_reciprocal", dict(htc=st.htc, htr=st.htr, step=step, op=op, bare=True, complete=False))]
+        return []
+    out = preds(0, "bare")
+    for i, (name, v) in enumerate(hist[1:], 1):
+        if name in ("t_supply", "t_target"):
+            setattr(st, name, A0 + B * v); have.add(name)
+        elif name == "heat_flow":
+            st.heat_flow = C * v
+        elif name == "dt_cont":
+            st.dt_cont = B * v
+        elif name == "htc":
+            st.htc = float(v)
+        elif name == "set_heat_flow":
+            st.set_heat_flow(C * v)
+        out += preds(i, name)
+    drift = None
+    s = case["s"]
+    if s["hasTs"] and s["hasTt"]:
+        exp = dict(t_min=A0 + B * s["tmin"], t_max=A0 + B * s["tmax"], CP=C / B * float(F(*s["cp"])), heat_flow=C * s["q"], type=s["kind"], htr=float(F(*s["htr"])))
+        for k, v in exp.items():
+            got = getattr(st, k)
+            if (isinstance(v, str) and got != v) or (not isinstance(v, str) and abs(got - v) > 1e-7 * max(1.0, abs(v))):
+                drift = f"bare Stream.{k}: real {got} vs spec {v} after {hist}"
+                if k in ("t_min", "t_max", "type"):
+                    out.append(("C19.bounds_follow_assigned_temperatures", dict(attr=k, got=got, expected=v, bare=True, dead=(st.t_supply == st.t_target))))
+    return out, drift
+
+
 def _replay_obj_fine(case, Stream):
     Bf = B * 0.003
     hist = case["hist"]
@@ -228,7 +272,10 @@ def check(prop, tier, run: Run, replay_case=None):
     run.register_matcher("kf_dead", kf_dead)
     if replay_case is not None:
         c = replay_case["case"]
-        out, _ = replay_obj(c, Stream, c.get("zero_at")) if "s" in c else replay_coll(c, Stream, StreamCollection)
+        if "s" in c and c["hist"][0][0] == "bare":
+            out, _ = replay_bare(c, Stream)
+        else:
+            out, _ = replay_obj(c, Stream, c.get("zero_at")) if "s" in c else replay_coll(c, Stream, StreamCollection)
         for clause, d in out:
             run.violation(clause, c, d)
         run.cov["evaluations"] = 1
@@ -264,6 +311,42 @@ def check(prop, tier, run: Run, replay_case=None):
             if len({h[0] for h in case["hist"]}) > 2:
                 nontriv.add(json.dumps(case["hist"]))
         run.cov["samples"] += [{"object": "Stream", "history": c["hist"]} for c in res.cases[:: max(1, len(res.cases) // 2)][:2]]
+    # ---- a stream constructed without temperatures and assembled one assignment at a time
+    bcfg = dict(OBJ_CFG["quick"], MaxOps=3) if tier == "quick" else dict(OBJ_CFG["quick"], TVals={0, 100}, MaxOps=4)
+    tmpd = Path(tempfile.mkdtemp(prefix="tlccfg_"))
+    try:
+        cfgf = tmpd / "mc.cfg"
+        write_cfg(cfgf, spec="SpecB", constants=dict(BARE_BASE, **bcfg, DoEmit=True), invariants=BARE_INVS)
+        bres = run_tlc("StreamBare.tla", cfgf, workers=16, xmx="8g")
+    finally:
+        shutil.rmtree(tmpd, ignore_errors=True)
+    run.add_tlc(bres, "StreamBare")
+    if bres.violated:
+        run.machinery_errors.append(f"Leg M: spec/StreamBare.tla violates {bres.violated}:\n{bres.error_trace[:1500]}")
+    else:
+        for case in bres.cases:
+            try:
+                out, drift = replay_bare(case, Stream)
+            except Exception as e:
+                out, drift = [("C19.raises", dict(exc=repr(e)[:200], bare=True))], None
+            run.cov["evaluations"] += 1
+            run.cov["traces_validated_against_impl"] += 1
+            for clause, d in out:
+                run.violation(clause, case, d)
+            if drift:
+                run.drift.append(drift)
+        run.cov["samples"] += [{"object": "Stream (constructed without temperatures)", "history": c["hist"]} for c in bres.cases[len(bres.cases) // 2:][:1]]
+    if tier == "thorough":
+        tmpd = Path(tempfile.mkdtemp(prefix="tlccfg_"))
+        try:
+            cfgf = tmpd / "mc.cfg"
+            write_cfg(cfgf, spec="SpecB", constants=dict(BARE_BASE, **dict(OBJ_CFG["tiny"]), BareHtrStale=True, DoEmit=False), invariants=BARE_INVS[:-1])
+            mres = run_tlc("StreamBare.tla", cfgf, workers=16, xmx="8g")
+        finally:
+            shutil.rmtree(tmpd, ignore_errors=True)
+        run.notes.setdefault("mutant_models_bare", {})["BareHtrStale"] = mres.violated
+        if not mres.violated:
+            run.machinery_errors.append("mutant model BareHtrStale not rejected")
     # ---- collection: exhaustive model check, simulated behaviours for replay
     for cname in (["quickA", "quickB"] if tier == "quick" else ["quickA", "deepA", "deepB"]):
         consts = dict(COLL_BASE, **COLL_CFG[cname])
